@@ -29,7 +29,7 @@ ASSUMPTIONS = ["operations of different clients do not overlap (the client is sy
                "names and bodies need no escaping (hostile values are C08's / C17's)"]
 
 OPS = ["listscripts", "putscript", "getscript", "deletescript", "setactive", "renamescript", "havespace",
-       "checkscript", "capability", "putscript", "getscript", "listscripts", "badreconnect"]
+       "checkscript", "capability", "putscript", "getscript", "listscripts", "badreconnect", "reconnect"]
 
 
 def text_lines(s):
@@ -100,6 +100,14 @@ def run(ch, config, res):
                 # forced refusals: NO for anybody; BYE only while another client remains
                 srv.fault_weights = [40, 3, 1 if len(clients) > 1 else 0, 0, 0, 0, 0, 0]
                 args = ()
+                if op == "reconnect":
+                    # the same object connects again (the old connection is simply abandoned); everything must keep working
+                    srv.fault_weights = [1, 0, 0, 0, 0, 0, 0, 0]
+                    if wl.flag("logout_first", 1, 2):
+                        world.call(client, "logout")
+                    connect(client, "op %d reconnect" % i)
+                    kinds.add(("reconnect", "ok"))
+                    continue
                 if op == "badreconnect":
                     # reconnect on the same object asking for a mechanism the server does not announce: must fail, and the
                     # object must then refuse script commands until it has really authenticated again
